@@ -1,0 +1,62 @@
+// Copyright (c) DataStax, Inc.
+//
+// Licensed under the Apache License, Version 2.0 (the "License");
+// you may not use this file except in compliance with the License.
+// You may obtain a copy of the License at
+//
+//      http://www.apache.org/licenses/LICENSE-2.0
+//
+// Unless required by applicable law or agreed to in writing, software
+// distributed under the License is distributed on an "AS IS" BASIS,
+// WITHOUT WARRANTIES OR CONDITIONS OF ANY KIND, either express or implied.
+// See the License for the specific language governing permissions and
+// limitations under the License.
+
+package codecs
+
+import (
+	"encoding/binary"
+	"fmt"
+	"io"
+	"io/ioutil"
+
+	"github.com/datastax/go-cassandra-native-protocol/compression/lz4"
+	lz4block "github.com/pierrec/lz4/v4"
+)
+
+// maxLz4Ratio is (more than) the best compression ratio an LZ4 block can have. It bounds the buffer allocated for a
+// length prefix that can't be trusted.
+const maxLz4Ratio = 256
+
+// lz4Compressor is the protocol library's LZ4 compressor, but it decompresses into a buffer of the length given by the
+// frame body's length prefix. The library guesses the length instead (at most eight times the compressed length) and
+// fails for anything that compresses better than that.
+type lz4Compressor struct {
+	lz4.Compressor
+}
+
+func (c lz4Compressor) DecompressWithLength(source io.Reader, dest io.Writer) error {
+	var decompressedLength uint32
+	if err := binary.Read(source, binary.BigEndian, &decompressedLength); err != nil {
+		return fmt.Errorf("cannot read compressed length: %w", err)
+	}
+	compressed, err := ioutil.ReadAll(source)
+	if err != nil {
+		return fmt.Errorf("cannot read compressed message: %w", err)
+	}
+	if decompressedLength == 0 {
+		return nil // The remaining single byte is what an empty message compresses to
+	}
+	if uint64(decompressedLength) > uint64(len(compressed))*maxLz4Ratio {
+		return fmt.Errorf("invalid decompressed length %d for %d compressed bytes", decompressedLength, len(compressed))
+	}
+	decompressed := make([]byte, decompressedLength)
+	written, err := lz4block.UncompressBlock(compressed, decompressed)
+	if err != nil {
+		return fmt.Errorf("cannot decompress message: %w", err)
+	}
+	if _, err = dest.Write(decompressed[:written]); err != nil {
+		return fmt.Errorf("cannot write decompressed message: %w", err)
+	}
+	return nil
+}
